@@ -551,6 +551,26 @@ def _run(sc, S, obs):
     def mk_funcs(op, opi):
         """user functions of operation opi.  With sc['same_func'] the SAME function objects serve every operation
         (so that consecutive calls on a keep-alive pool compare equal) and read the current operation from `cur`."""
+        if sc.get('func_kind') == 'partial':
+            # every call passes functools.partial objects of the SAME three underlying functions, bound to the call they belong to:
+            # different calls' functions are different (they carry different bound arguments) although they wrap the same function
+            import functools
+            cur.update(op=op, opi=opi)
+            if 'pf' not in stable:
+                t0, i0, e0 = _mk_funcs(None, None)
+
+                def bind(f):
+                    def base(tag, *a, **k):
+                        prev = getattr(S.cur, 'bound_op', None)
+                        S.cur.bound_op = tag
+                        try:
+                            return f(*a, **k)
+                        finally:
+                            S.cur.bound_op = prev
+                    return base
+                stable['pf'] = (bind(t0), i0, e0)
+            # (the hooks are the same plain functions for every call: only the task function is a per-call partial)
+            return functools.partial(stable['pf'][0], opi), stable['pf'][1], stable['pf'][2]
         if sc.get('same_func'):
             cur.update(op=op, opi=opi)
             if 'f' not in stable:
@@ -564,6 +584,9 @@ def _run(sc, S, obs):
         def ctx():
             op = op_fixed if op_fixed is not None else cur['op']
             opi = opi_fixed if opi_fixed is not None else cur['opi']
+            tag = getattr(S.cur, 'bound_op', None)
+            if op_fixed is None and tag is not None:
+                op, opi = sc['ops'][tag], tag
             cfg = S.inst_cfg.get(S.threads.index(S.cur)) or \
                 {'pass_worker_id': pool.pool_params.pass_worker_id, 'shared': pool.pool_params.shared_objects is not None,
                  'use_worker_state': pool.pool_params.use_worker_state}
